@@ -19,8 +19,8 @@ from . import ops
 from .speceval import SpecEval
 from .engine import Engine, Obl
 
-Z3_TIMEOUT_MS = 10000
-CVC5_TIMEOUT_S = 20
+Z3_TIMEOUT_MS = 6000
+CVC5_TIMEOUT_S = 10
 
 
 def initial_state(E: Engine):
@@ -51,27 +51,47 @@ def initial_state(E: Engine):
     return st, env
 
 
-def check(pc, goal, timeout_ms=Z3_TIMEOUT_MS):
-    """Is pc => goal valid?  returns (status, model|None, backend, seconds, text)."""
+def check(pc, goal, timeout_ms=None):
+    """Is pc => goal valid?  returns (status, model|None, backend, seconds, text, candidate_model).
+
+    1. hypotheses without quantifiers (a subset of pc): unsat is already a proof, and a model is a
+       *candidate* counterexample;  2. the full query;  3. cvc5 on unknown.
+    A candidate model never decides anything by itself: the caller replays it on the real code."""
+    from .engine import has_quantifier
+    from .state import HEAP_AXIOMS
+    timeout_ms = timeout_ms or Z3_TIMEOUT_MS
+    t0 = time.time()
+    qf = [p for p in pc if not has_quantifier(p)]
+    pc = list(pc) + [a for a in HEAP_AXIOMS.values() if a is not None]
+    cand = None
+    if True:
+        s0 = z3.Solver()
+        s0.set("timeout", 3000)
+        s0.add(*qf)
+        s0.add(z3.Not(goal))
+        r0 = s0.check()
+        if r0 == z3.unsat:
+            return DISCHARGED, None, "z3", time.time() - t0, "unsat (quantifier-free hypotheses suffice)", None
+        if r0 == z3.sat:
+            cand = s0.model()
     s = z3.Solver()
     s.set("timeout", timeout_ms)
     s.add(*pc)
     s.add(z3.Not(goal))
-    t0 = time.time()
     r = s.check()
     dt = time.time() - t0
     if r == z3.unsat:
-        return DISCHARGED, None, "z3", dt, "unsat"
+        return DISCHARGED, None, "z3", dt, "unsat", None
     if r == z3.sat:
-        return VIOLATED, s.model(), "z3", dt, "sat"
+        return VIOLATED, s.model(), "z3", dt, "sat", None
     reason = s.reason_unknown()
     # second opinion
     st2, txt, dt2 = cvc5_check(s)
     if st2 == "unsat":
-        return DISCHARGED, None, "cvc5", dt + dt2, "z3 unknown (%s); cvc5 unsat" % reason
+        return DISCHARGED, None, "cvc5", dt + dt2, "z3 unknown (%s); cvc5 unsat" % reason, None
     if st2 == "sat":
-        return VIOLATED, None, "cvc5", dt + dt2, "z3 unknown (%s); cvc5 sat\n%s" % (reason, txt[:2000])
-    return UNDECIDED, None, "z3+cvc5", dt + dt2, "z3 unknown (%s); cvc5 %s" % (reason, st2)
+        return VIOLATED, None, "cvc5", dt + dt2, "z3 unknown (%s); cvc5 sat\n%s" % (reason, txt[:2000]), cand
+    return UNDECIDED, None, "z3+cvc5", dt + dt2, "z3 unknown (%s); cvc5 %s" % (reason, st2), cand
 
 
 def cvc5_check(solver):
@@ -126,6 +146,8 @@ def verify_function(key, prop_prefix="", replayer=None, only_labels=None) -> lis
     short = key.split(":")[1]
     results = []
     t_start = time.time()
+    from .state import HEAP_AXIOMS
+    HEAP_AXIOMS.clear()
     try:
         E = Engine(key, c)
     except Unsupported as e:
@@ -171,34 +193,59 @@ def verify_function(key, prop_prefix="", replayer=None, only_labels=None) -> lis
         groups.setdefault((o.label, o.klass), []).append(o)
     for (label, klass), obs in groups.items():
         agg_status, agg_time, backends, outs = DISCHARGED, 0.0, set(), []
-        witness, wit_obl = None, None
+        witness, wit_obl, wmodel = None, None, None
+        cand_model, cand_obl = None, None
         for o in obs:
-            status, model, backend, dt, txt = check(o.pc, o.goal)
+            status, model, backend, dt, txt, cand = check(o.pc, o.goal)
             agg_time += dt
             backends.add(backend)
             if status == VIOLATED:
                 agg_status = VIOLATED
-                witness = model_json(E, model, env) if model is not None else None
+                wmodel = model if model is not None else cand
+                witness = model_json(E, wmodel, env) if wmodel is not None else None
                 wit_obl = o
                 outs.append("%s on path %s: %s" % (txt, "/".join(o.path[-6:]), o.info))
-                wmodel = model
                 break
-            if status == UNDECIDED and agg_status == DISCHARGED:
-                agg_status = UNDECIDED
+            if status == UNDECIDED:
+                if agg_status == DISCHARGED:
+                    agg_status = UNDECIDED
                 outs.append("%s: %s" % (txt, o.info))
+                if cand is not None and cand_model is None:
+                    cand_model, cand_obl = cand, o
         r = Result("%s%s.%s" % (prop_prefix, short, label), agg_status, klass=klass,
                    backend="+".join(sorted(backends)), time_s=agg_time, function=key,
                    detail="%s [%d path(s)] %s" % (label, len(obs), obs[0].info), witness=witness,
                    output="\n".join(outs))
         if agg_status == VIOLATED and replayer is not None:
             try:
-                rep = replayer(E, c, wmodel if witness is not None else None, env, wit_obl)
+                rep = replayer(E, c, wmodel, env, wit_obl)
                 if rep is not None:
                     r.replayed, r.replay = rep
             except Exception as e:   # replay trouble never changes the verdict
                 r.replay = {"replay_error": repr(e)}
+        elif agg_status == UNDECIDED and replayer is not None:
+            # solver gave no verdict: a candidate model (or the directed search) that reproduces
+            # natively on the real code is a violation; otherwise the obligation stays undecided
+            try:
+                rep = replayer(E, c, cand_model, env, cand_obl)
+                if rep is not None and rep[0]:
+                    r.status, r.replayed, r.replay = VIOLATED, True, rep[1]
+                    r.witness = model_json(E, cand_model, env) if cand_model is not None else None
+                    r.output += "\nundecided by the solvers; candidate/directed witness reproduced natively"
+            except Exception as e:
+                r.replay = {"replay_error": repr(e)}
         results.append(r)
-    # vacuity / canary: at least one exit path must be reachable (checked while exploring)
+    # vacuity: no explored exit path may have a refutable path condition once the quantified
+    # facts (callee postconditions, heap well-formedness) are added -- otherwise every
+    # obligation on it would be discharged for the wrong reason
+    vac = []
+    for kind, st2, payload in exits:
+        stt, _, _, _, txt, _ = check(st2.pc, z3.BoolVal(False), timeout_ms=2000)
+        if stt == DISCHARGED:
+            vac.append("/".join(st2.trace[-6:]) or "<straight-line>")
+    if vac:
+        results.append(Result("%s%s.vacuity" % (prop_prefix, short), ERROR, klass="L", backend="z3", function=key,
+                              output="path condition refutable on %d exit path(s): %s" % (len(vac), vac[:4])))
     results.append(Result("%s%s.reachable" % (prop_prefix, short), DISCHARGED, klass="L", backend="z3",
                           function=key, detail="canary: %d feasible exit path(s), %d pruned; postcondition False would be refuted"
                           % (len(exits), E.pruned)))
